@@ -49,3 +49,29 @@ Theorem C09_plain_documents_independent : forall c fin d1 d2 o1 o2,
   ConvertModel c (md_of false true d1 ++ nl ++ md_of false fin d2) = Ok (o1 ++ o2).
 Proof. exact plain_docs_independent. Qed.
 Print Assumptions C09_plain_documents_independent.
+
+(* the law as the property words it - A, an empty line, an ATX heading line, an empty line, B - on
+   the larger fragment of leaf documents (plain paragraphs, ATX headings, thematic breaks, fenced
+   code blocks in any order), for EVERY A and B of the fragment; the separator may be any leaf
+   block, in particular the heading line.  html_of writes <hr /> as the specification does, hence
+   the XHTML switch. *)
+Require Import GM.proofs.SpecLeafConform GM.proofs.SpecLeafIndep.
+Theorem C09_leaf_documents_independent : forall c fin d1 h d2 o1 o2,
+  hardwraps c = false -> xhtml c = true ->
+  leaf_doc d1 = true -> leaf_block h = true -> leaf_doc d2 = true ->
+  ConvertModel c (md_of false true d1) = Ok o1 ->
+  ConvertModel c (md_of false fin d2) = Ok o2 ->
+  ConvertModel c (md_of false true d1 ++ nl ++ md_of false true [h] ++ nl ++ md_of false fin d2)
+    = Ok (o1 ++ html_of [h] ++ o2).
+Proof. exact leaf_docs_independent. Qed.
+Print Assumptions C09_leaf_documents_independent.
+Theorem C09_leaf_documents_independent_heading : forall c fin d1 lv ws d2 o1 o2,
+  hardwraps c = false -> xhtml c = true ->
+  leaf_doc d1 = true -> leaf_doc d2 = true ->
+  leaf_block (SpecDoc.BHeading 0 lv 0 0 (map AWord ws)) = true ->
+  ConvertModel c (md_of false true d1) = Ok o1 ->
+  ConvertModel c (md_of false fin d2) = Ok o2 ->
+  ConvertModel c (md_of false true d1 ++ nl ++ md_of false true [SpecDoc.BHeading 0 lv 0 0 (map AWord ws)] ++ nl ++ md_of false fin d2)
+    = Ok (o1 ++ html_of [SpecDoc.BHeading 0 lv 0 0 (map AWord ws)] ++ o2).
+Proof. exact leaf_docs_independent_heading. Qed.
+Print Assumptions C09_leaf_documents_independent_heading.
